@@ -86,7 +86,8 @@ struct World<'a> {
 
 impl<'a> World<'a> {
     fn uname(&self, u: u8) -> String {
-        format!("{}{}", self.pre, ["ua", "ub", "uc"][(u % 3) as usize])
+        // one of the three account names ends with a blank (legal, must be kept verbatim everywhere)
+        format!("{}{}", self.pre, ["ua", "ub ", "uc"][(u % 3) as usize])
     }
     /// person-specific passwords; index 2 = almost another person's password (never valid), 3 = empty
     fn pw(&self, p: usize, w: u8) -> String {
@@ -655,8 +656,27 @@ pub fn c17(tier: Tier) -> PropSpec {
             tier.pick(250, 3000),
             80,
             || {
-                (2u8..4, proptest::collection::vec(step_strategy(), 5..40))
-                    .prop_map(|(persons, steps)| UserCase { persons, steps })
+                // single steps, interspersed with a 'reclaim' template: p owns account u, renames it to u2
+                // (or deletes it), q registers the freed name u, then p tries its OLD credentials on u
+                let template = (0u8..3, 0u8..3, 0u8..3, any::<bool>()).prop_map(|(p, u, u2, delete)| {
+                    let q = (p + 1) % 3;
+                    let u2 = if u2 == u { (u + 1) % 3 } else { u2 };
+                    vec![
+                        Step::Register { p, u, w: 0 },
+                        Step::Login { p, u, w: 0 },
+                        if delete { Step::DeleteAccount { p } } else { Step::Update { p, u: u2, w: 0 } },
+                        Step::Register { p: q, u, w: 1 },
+                        Step::Login { p, u, w: 0 },
+                        Step::List { p },
+                        Step::Login { p: q, u, w: 1 },
+                        Step::List { p: q },
+                    ]
+                });
+                (
+                    2u8..4,
+                    proptest::collection::vec(prop_oneof![12 => step_strategy().prop_map(|s| vec![s]), 1 => template], 5..36),
+                )
+                    .prop_map(|(persons, chunks)| UserCase { persons, steps: chunks.into_iter().flatten().take(48).collect() })
                     .boxed()
             },
             c17_check,
